@@ -154,7 +154,10 @@ impl<'a> IntoIterator for &'a BytesExpr {
 
 fn fixed_byte(input: &str, digits: usize, radix: u32) -> LexResult<'_, u8> {
     let (digits, rest) = take(input, digits)?;
-    match u8::from_str_radix(digits, radix) {
+    // `from_str_radix` accepts a leading `+`, which is not a digit of an
+    // escape sequence or a hex pair: parse just the sign to get its error.
+    let number = if digits.starts_with('+') { "+" } else { digits };
+    match u8::from_str_radix(number, radix) {
         Ok(b) => Ok((b, rest)),
         Err(err) => Err((LexErrorKind::ParseInt { err, radix }, digits)),
     }
